@@ -39,6 +39,12 @@ class Concretizer:
         for a in roots:
             if a.text is not None:
                 self.strings[a.idx] = a.text; continue
+            if a.version is not None:
+                if self.ev(a.version[0]):
+                    self.strings[a.idx] = ".".join(str(self.ev(x)) for x in a.version[1].fields)
+                else:
+                    self.strings[a.idx] = f"not-a-version-{a.idx}"
+                continue
             va = self.ev(a.valid_addr) if a.valid_addr is not None else None
             need.append((self.ev(a.rank), a, va))
         need.sort(key=lambda x: x[0])
